@@ -1,5 +1,5 @@
 """Function-body specs for cnvlib/segmentation/__init__.py (property C03): one iteration of transfer_fields' aggregation loop,
-_do_segmentation's weight mask per row, transfer_fields' endpoint stretch.
+_do_segmentation's weight mask per row, transfer_fields' endpoint stretch, drop_outliers per row.
 
 Mutations tried with tools/mut_fn.sh (scratch copy of the sources, re-translation, rebuild of the Proofs file):
   FnSegWeightMask  `filtered_cn["weight"] < min_weight` -> `<= min_weight`              KILLED (source_weight_mask no longer proves)
@@ -10,6 +10,8 @@ Mutations tried with tools/mut_fn.sh (scratch copy of the sources, re-translatio
                                                                                         iloc[-1]['end'] is no longer assigned)
                    second store `..get_loc("end")` -> `..get_loc("start")`              translator REFUSES (rows 0 and -1 of one
                                                                                         column: the same cell in a one-row table)
+  FnSegOutliers    `return cnarr[~outlier_mask]` -> `return cnarr[outlier_mask]`         KILLED (source_drop_outliers)
+                   drop_outliers' `if not len(cnarr):` -> `if len(cnarr):`               KILLED
 """
 MODULES = {
     # ONE ITERATION of `for i, bin_idx in enumerate(iter_slices(cdata, segments.data, "outer", True)):` -- what row i of
@@ -61,5 +63,19 @@ MODULES = {
                      ("segments.data.iloc[0]['start']", 'Z', 'first_start'),
                      ("segments.data.iloc[-1]['end']", 'Z', 'last_end')],
              ret=['Z', 'Z']),
+    ]),
+    # drop_outliers, the WHOLE function read per row as "the bin is kept" (row_filter): an empty table is returned as it is,
+    # otherwise `return cnarr[~outlier_mask]`; the mask (np.concatenate of smoothing.rolling_outlier_quantile per chromosome) and
+    # its sum are opaque inputs, the log-only `if n_outliers:` is dropped.
+    # (Proofs/FnSegOutliers.v: C03_source_drop_outliers -- on a table with a row it is `negb outlier`, the second factor of
+    # Model/Segment.v survives)
+    # mutations: `return cnarr[~outlier_mask]` -> `return cnarr[outlier_mask]` KILLED; `if not len(cnarr):` -> `if len(cnarr):` KILLED
+    'FnSegOutliers': ('cnvlib/segmentation/__init__.py', [
+        dict(name='drop_outliers', coq='fn_drop_outliers_keep', py_params=['cnarr', 'width', 'factor'], row_filter='cnarr',
+             params=[('len(cnarr)', 'Z', 'nrows'),
+                     ("np.concatenate([smoothing.rolling_outlier_quantile(subarr['log2'], width, 0.95, factor) "
+                      "for _chrom, subarr in cnarr.by_chromosome()])", 'B', 'outlier'),
+                     ('outlier_mask.sum()', 'Z', 'n_outliers')],
+             ret='B'),
     ]),
 }
